@@ -20,6 +20,18 @@ fn push_valid(v: &mut Vec<i64>, y: i64, m: u32, d: u32) {
     }
 }
 
+/// DIST_B: distances in days taken from the constants of the conversion code (epoch shifts and cycle
+/// lengths), both signs: a value is also examined right after a value this far away, because the
+/// functions are pure and their answer must not depend on what was asked before
+pub fn dist_b() -> Vec<i64> {
+    let mut v = vec![];
+    for d in [1i64, 7, 365, 366, 1_461, 36_524, 146_097, 719_162, 719_468, 730_179] {
+        v.push(d);
+        v.push(-d);
+    }
+    v
+}
+
 /// DAYS_B: ~600 landmark day numbers
 pub fn days_b() -> Vec<i64> {
     let mut v = vec![];
